@@ -61,6 +61,13 @@ CLAIMED.update({
              text="20k/1M generated segment sequences (all split points, trailing slash, distinctness over the sample) plus on-chain trees whose returned Path must equal the address computed from the plain path.",
              ref="5/C20"),
 })
+
+CLAIMED.update({
+ "C06": dict(tech="differential replay monitor: recorded histories re-executed in independent OS processes (fresh map seeds, different GOMAXPROCS/GOGC, interleaved serialised CheckTx/Query/Simulate), step digests compared; Go race detector on the replay in the thorough tier",
+             text="Each generated history is executed by 2 (quick) or 3 (thorough, one under -race) independent processes and compared step by step on AppHash, tx code/gas/data and ordered events. Map-order, wall-clock or process-local dependence shows up as a digest mismatch between processes; the race detector reports unsynchronised access in canine-chain frames.",
+             ref="5/C06",
+             note="Trusted base: recorder/replayer in harness/chain/record.go, Go runtime map-seed randomisation per process as the source of iteration-order diversity, race detector. Concurrent ABCI calls are deliberately not generated (TM 0.34 serialises them)."),
+})
 NOT_BUILT = "monitor not built yet in this session (design in DESIGN.md section 5); will be claimed once its check runs clean"
 
 hooks_commits = subprocess.run(["git", "-C", "/repo", "log", "--format=%H", "--grep=^verif hooks"], capture_output=True, text=True).stdout.split()
